@@ -639,7 +639,8 @@ impl Transaction {
 
     // calculate cumulative fee share in block
     pub fn generate_cumulative_fees(&mut self, cumulative_fees: Currency) -> Currency {
-        self.cumulative_fees = cumulative_fees + self.total_fees;
+        // (fees of transactions nobody has validated yet: Block::generate runs on every fetched buffer)
+        self.cumulative_fees = cumulative_fees.saturating_add(self.total_fees);
         self.cumulative_fees
     }
 
